@@ -75,7 +75,7 @@ Print Assumptions C04_total.
 
 (** the boolean predicate the judge evaluates on implementation traces is exactly the inductively
     defined trace property [C04_trace] (Proofs/IbtpMonProofs.v) *)
-Theorem C04_predicate_reflects : forall w q items tr, c04_b w q items tr = true <-> C04_trace w q c4_init items tr.
+Theorem C04_predicate_reflects : forall w q items tr, c04_b w q items tr = true <-> C04_trace w q 2 c4_init c6_init items tr.
 Proof. exact c04_b_spec. Qed.
 Print Assumptions C04_predicate_reflects.
 
